@@ -649,6 +649,7 @@ pub fn run(opts: &Options) -> Report {
         let chain = &br.chain;
         // ---- honest bounded rounds
         let mut aborted = None;
+        let mut made_up_blocks: Vec<ckb_types::core::BlockView> = Vec::new();
         for _ in 0..rounds_before {
             now += 3000;
             set_now(now);
@@ -803,6 +804,7 @@ pub fn run(opts: &Options) -> Report {
             let mut msgs: Vec<(PeerIndex, Bytes)> = Vec::new();
             let mut repeats: Vec<(PeerIndex, Bytes)> = Vec::new();
             let mut claim_start = start;
+            let mut pushed: Option<ckb_types::core::BlockView> = None;
             let mut sent_filters: Vec<packed::Bytes> = Vec::new();
             let mut _sent_hashes: Vec<Byte32> = Vec::new();
             let mut note = String::new();
@@ -843,6 +845,17 @@ pub fn run(opts: &Options) -> Report {
                         h[..8].copy_from_slice(&r.next().to_le_bytes());
                         hashes[j] = h.pack();
                         note = format!("hash of block {} replaced by a random hash", start + j as u64);
+                        // in half of the histories (decided from the seed, not drawn) the hash
+                        // is the hash of a made-up, self-consistent block with a payment to a
+                        // registered script, which the liar pushes right behind the filters
+                        // without being asked and without ever proving it
+                        if fnv(&format!("{}:{}:fabricated", seed, len)) % 2 == 0 && start + j as u64 <= chain.tip_number() {
+                            let mut r2 = Rng::new(*seed ^ 0xfab);
+                            let (fb, _, _) = super::c02::forged_block(&mut r2, &chain.block(start + j as u64));
+                            hashes[j] = fb.hash();
+                            note = format!("hash of block {} replaced by the hash of a made-up block, which is then pushed unasked", start + j as u64);
+                            pushed = Some(fb);
+                        }
                     }
                     Attack::ShiftedContent => {
                         let s2 = if start + 2 <= chain.tip_number() { start + r.range(1, 2) } else { start.saturating_sub(1).max(1) };
@@ -1077,6 +1090,23 @@ pub fn run(opts: &Options) -> Report {
                     );
                 }
             }
+            if let Some(fb) = pushed.take() {
+                rep.count_class("attack:made-up-block-pushed");
+                made_up_blocks.push(fb.clone());
+                let m = super::c02::sync_msg(packed::SendBlock::new_builder().block(fb.data()).build());
+                if let Err(e) = catch(|| node.deliver(p3, SupportProtocols::Sync.protocol_id(), m)) {
+                    aborted = Some(e);
+                }
+                let (facts, _) = index_dump(&node);
+                let truth: BTreeSet<Fact> = br2.facts.iter().cloned().collect();
+                if let Some(f) = facts.iter().find(|f| !truth.contains(*f)) {
+                    rep.violate(
+                        &format!("C06|index-not-in-ground-truth|{:?}", attack),
+                        "a block that no proof binds to the proved chain is indexed: the index holds an entry that is not on the chain",
+                        replay(format!("# {}: script {} block {} tx {} cell {} output {}", note, f.0, f.1, short(&f.2), f.3, f.4)),
+                    );
+                }
+            }
             let after = state(&node);
             if debug {
                 let _ = node.collect();
@@ -1123,10 +1153,19 @@ pub fn run(opts: &Options) -> Report {
             );
             continue;
         }
-        // ---- honest convergence (peer 3 is honest from now on, the chain keeps growing)
+        // ---- honest convergence (peer 3 is honest from now on - except that it keeps pushing its
+        // made-up blocks, unasked and unproved, between the rounds -, the chain keeps growing)
         let mut grown = br2.chain.fork(br2.chain.tip_number(), 99);
         let mut conv_abort = None;
         for _ in 0..8 {
+            for fb in &made_up_blocks {
+                if node.i().peers.get_state(&p3).is_some() {
+                    let m = super::c02::sync_msg(packed::SendBlock::new_builder().block(fb.data()).build());
+                    if let Err(e) = catch(|| node.deliver(p3, SupportProtocols::Sync.protocol_id(), m)) {
+                        conv_abort = Some(e);
+                    }
+                }
+            }
             grown.append_simple(1);
             let chain_of = |_p: PeerIndex| Some(&grown);
             for p in [p1, p2, p3] {
@@ -1221,6 +1260,15 @@ pub fn run(opts: &Options) -> Report {
         let min_f = node.i().storage.get_min_filtered_block_number();
         let (facts, _cells) = index_dump(&node);
         let truth: BTreeSet<Fact> = br2.facts.iter().cloned().collect();
+        if !made_up_blocks.is_empty() {
+            if let Some(f) = facts.iter().find(|f| !truth.contains(*f)) {
+                rep.violate(
+                    "C06|index-not-in-ground-truth|made-up-block-pushed",
+                    "a block that no proof binds to the proved chain is indexed: the index holds an entry that is not on the chain",
+                    replay(format!("# script {} block {} tx {} cell {} output {}", f.0, f.1, short(&f.2), f.3, f.4)),
+                );
+            }
+        }
         let missing: Vec<String> = truth.difference(&facts).take(4).map(|f| format!("script {} block {} tx {} cell {} output {}", f.0, f.1, short(&f.2), f.3, f.4)).collect();
         if min_f < br2.chain.tip_number() || node.i().storage.get_earliest_matched_blocks().is_some() {
             rep.violate(
